@@ -167,6 +167,11 @@ impl<'a, H: HashChain> InMemoryHssSignature<'a, H> {
 
         let signature = InMemoryLmsSignature::<'a, H>::new(data.get(index..)?)?;
 
+        // RFC 8554, 6.3: the signature must be exactly as long as its type codes say
+        if index + signature.len() != data.len() {
+            return None;
+        }
+
         Some(Self {
             level,
             signed_public_keys,
